@@ -204,6 +204,8 @@ def run(tier, seed):
             if "ok" in obs:
                 out.notes.append("exhaustive enum accepts unlisted PLAIN value %s" % text)
             continue
+        if ty == "enum" and cls == "listed" and "Unknown" in obs.get("debug", ""):
+            out.violation("C12:generated:enum:listed-as-unknown", "PLAIN text %r of a listed enum value parses to %s" % (text, obs["debug"]), rep)
         if "err" in obs:
             out.violation("C12:generated:%s:%s:unparsable" % (ty, cls), "generated type rejects PLAIN text %r: %s" % (text, obs["err"][:80]), rep)
         else:
